@@ -8,6 +8,7 @@ import (
 	"fmt"
 	"math/rand"
 	"os"
+	"reflect"
 	"sort"
 	"strings"
 	"time"
@@ -31,6 +32,52 @@ type Row struct {
 }
 
 func (Row) TableName() string { return "rows" }
+
+// RowQ is the soft-delete model with a POINTER-typed deleted-at field (same table); SoftPtr selects it.
+type RowQ struct {
+	ID        int64 `gorm:"primaryKey"`
+	A         *int64
+	B         *int64
+	S         *string
+	M         int64
+	Ora       *int64 `gorm:"column:ora"`
+	Bandb     *int64 `gorm:"column:bandb"`
+	DeletedAt *gorm.DeletedAt
+}
+
+func (RowQ) TableName() string { return "rows" }
+
+// SoftPtr: use RowQ instead of Row as the soft-delete model of this process.
+var SoftPtr = os.Getenv("VERIF_SOFTPTR") != ""
+
+func modelType(soft bool) reflect.Type {
+	switch {
+	case soft && SoftPtr:
+		return reflect.TypeOf(RowQ{})
+	case soft:
+		return reflect.TypeOf(Row{})
+	}
+	return reflect.TypeOf(RowP{})
+}
+
+// newModel returns a pointer to a fresh model value with the given key.
+func newModel(soft bool, pk int64) interface{} {
+	v := reflect.New(modelType(soft))
+	v.Elem().FieldByName("ID").SetInt(pk)
+	return v.Interface()
+}
+
+// newSlice returns a pointer to an empty slice of the model and a function reading the keys out of it.
+func newSlice(soft bool) (interface{}, func() []int64) {
+	p := reflect.New(reflect.SliceOf(modelType(soft)))
+	return p.Interface(), func() []int64 {
+		var ids []int64
+		for i := 0; i < p.Elem().Len(); i++ {
+			ids = append(ids, p.Elem().Index(i).FieldByName("ID").Int())
+		}
+		return ids
+	}
+}
 
 type RowP struct {
 	ID    int64 `gorm:"primaryKey"`
@@ -155,7 +202,7 @@ func NewEnv(cfg *gorm.Config) (*Env, error) {
 		return nil, err
 	}
 	sqldb.SetMaxOpenConns(1)
-	if err := db.AutoMigrate(&Row{}, &RowP{}); err != nil {
+	if err := db.AutoMigrate(newModel(true, 0), &RowP{}); err != nil {
 		return nil, err
 	}
 	return &Env{DB: db, Rec: rec, SQL: sqldb}, nil
@@ -321,12 +368,7 @@ func (e *Env) Run(chain []Unit, fin Fin, soft bool) (Obs, error) {
 	if fin.Unscoped {
 		tx = tx.Unscoped()
 	}
-	model := func(pk int64) interface{} {
-		if soft {
-			return &Row{ID: pk}
-		}
-		return &RowP{ID: pk}
-	}
+	model := func(pk int64) interface{} { return newModel(soft, pk) }
 	if fin.Prior != "" {
 		tx = tx.Model(model(0))
 		switch fin.Prior {
@@ -336,13 +378,8 @@ func (e *Env) Run(chain []Unit, fin Fin, soft bool) (Obs, error) {
 		case "noop_updates":
 			tx.Updates(map[string]interface{}{})
 		case "find":
-			if soft {
-				var out []Row
-				tx.Find(&out)
-			} else {
-				var out []RowP
-				tx.Find(&out)
-			}
+			out, _ := newSlice(soft)
+			tx.Find(out)
 		}
 		switch fin.Clone {
 		case "session":
@@ -357,33 +394,15 @@ func (e *Env) Run(chain []Unit, fin Fin, soft bool) (Obs, error) {
 	var res *gorm.DB
 	switch fin.Kind {
 	case "find":
-		if soft {
-			var out []Row
-			res = tx.Find(&out, inline...)
-			for _, r := range out {
-				o.Ids = append(o.Ids, r.ID)
-			}
-		} else {
-			var out []RowP
-			res = tx.Find(&out, inline...)
-			for _, r := range out {
-				o.Ids = append(o.Ids, r.ID)
-			}
-		}
+		out, ids := newSlice(soft)
+		res = tx.Find(out, inline...)
+		o.Ids = ids()
 		o.N = res.RowsAffected
 	case "first":
-		if soft {
-			out := Row{ID: fin.PK}
-			res = tx.First(&out, inline...)
-			if res.Error == nil {
-				o.Ids = []int64{out.ID}
-			}
-		} else {
-			out := RowP{ID: fin.PK}
-			res = tx.First(&out, inline...)
-			if res.Error == nil {
-				o.Ids = []int64{out.ID}
-			}
+		out := newModel(soft, fin.PK)
+		res = tx.First(out, inline...)
+		if res.Error == nil {
+			o.Ids = []int64{reflect.ValueOf(out).Elem().FieldByName("ID").Int()}
 		}
 	case "count":
 		res = tx.Model(model(0)).Count(&o.N)
@@ -490,7 +509,7 @@ func QEvent(caseNo int, chain []Unit, fin Fin, soft bool, o Obs) hx.M {
 	rc, _ := json.Marshal(chain)
 	rf, _ := json.Marshal(fin)
 	return hx.M{"ev": "Q", "case": caseNo, "rchain": string(rc), "rfin": string(rf), "fin": fin.Kind, "soft": soft, "unscoped": fin.Unscoped,
-		"allow": fin.Allow != "", "pk": fin.PK, "chain": ChainJSON(chain),
+		"allow": fin.Allow != "", "pk": fin.PK, "chain": ChainJSON(chain), "softptr": SoftPtr,
 		"ids": nzi(o.Ids), "n": o.N, "err": errc, "errtext": o.Err, "execs": o.Execs,
 		"begins": o.Begins, "commits": o.Commits, "rollbacks": o.Rollback,
 		"changed": nzi(o.Changed), "marked": nzi(o.Marked), "removed": nzi(o.Removed), "other": nzi(o.Other)}
